@@ -75,6 +75,22 @@ def gen_sites(tier, rng):
     for n in range(0, 7):
         for _ in range(5 if not big else 30):
             out.append({"k": "corr", "keys": [rng.choice(["gte", "lt", "eq"])] + rng.sample(POOL, n)})
+    # correlation condition dicts: null-valued operators, several operators, operator + field / percentile,
+    # unknown keys, values int() rejects.  Exhaustive: every pair of operators x value kinds; random beyond
+    OPS = ["gte", "gt", "lte", "lt", "eq", "neq"]
+    vals = [2, None, "x"]
+    for a in OPS:
+        for va in vals:
+            out.append({"k": "corrd", "items": [[a, va]]})
+            out.append({"k": "corrd", "items": [[a, va], ["field", "f"]]})
+    for a, b in itertools.permutations(OPS, 2):
+        for va, vb in ([2, None], [None, 2], [None, None], [2, 3]) + (([2, "x"], ["x", None]) if big else ()):
+            out.append({"k": "corrd", "items": [[a, va], [b, vb]]})
+    for _ in range(60 if not big else 800):
+        ks = rng.sample(OPS, rng.choice([0, 1, 1, 2, 2, 3, 4])) + rng.sample(["field", "percentile", "foo", "Bar", "zz", "count"], rng.randint(0, 3))
+        rng.shuffle(ks)
+        items = [[kk, ("f" if kk == "field" else 50 if kk == "percentile" else rng.choice([1, 17, None, None, "x", "1.5"]))] for kk in ks]
+        out.append({"k": "corrd", "items": items})
     # field mappings + strict check; exhaustive small part: one detection, fields over {a,b,c}, one mapping
     small_t = [["x"], ["x", "y"], ["a"], ["b", "a"]]
     for fs in itertools.chain.from_iterable(itertools.product("abc", repeat=k) for k in (1, 2)):
@@ -241,6 +257,10 @@ def site_coq(c):
         return f"(SUnref {clist(cstr(x) for x in c['conds'])} {clist(cstr(x) for x in c['refs'])})"
     if k == "corr":
         return f"(SCorr {clist(cstr(x) for x in c['keys'][1:])})"
+    if k == "corrd":
+        def cv(v):
+            return "VNull" if v is None else f"(VInt {cstr(str(v))})" if isinstance(v, int) else f"(VBad {cstr(str(v))})"
+        return "(SCorrD %s)" % clist(f"({cstr(kk)}, {cv(v)})" for kk, v in c["items"])
     if k == "flags":
         return "(SFlags %s)" % clist({"i": "FI", "m": "FM", "s": "FS"}[x] for x in c["flags"])
     if k == "names":
@@ -313,6 +333,11 @@ def mutate_sites(c, rng):
         for x in POOL:
             if x not in c["keys"]:
                 out.append(dict(c, keys=c["keys"] + [x]))
+    elif k == "corrd":
+        for op in ["gte", "lte", "eq"]:
+            if op not in [i[0] for i in c["items"]]:
+                out.append(dict(c, items=c["items"] + [[op, None]]))
+                out.append(dict(c, items=[[op, None]] + c["items"]))
     elif k == "flags":
         for x in "ims":
             out.append(dict(c, flags=c["flags"] + [x]))
@@ -439,7 +464,7 @@ def process_check(tier, seed):
 # ------------------------------------------------------------------------------------------
 # AST scan (support for the completeness of the model, not a proof)
 # ------------------------------------------------------------------------------------------
-from props.c20_scan import scan_repo, REVIEWED   # noqa: E402
+from props.c20_scan import scan_repo, REVIEWED, GUARDS, check_guards   # noqa: E402
 
 
 def scan_check(tier, seed):
@@ -453,10 +478,17 @@ def scan_check(tier, seed):
             problems.append(Problem("violation", "scan", s,
                                     {"why": "set iteration / join of a set / draw at a site that is not in the reviewed list "
                                             "(props/c20_scan.py REVIEWED): review it, model it if it reaches output"}))
+    for key, st in check_guards(REPO):
+        problems.append(Problem("violation", "scan", {"file": key[0], "func": key[1], "kind": key[2], "expr": key[3]},
+                                {"why": "order-sensitive set iteration whose invariant is no longer established: the guarding "
+                                        "statement is missing from the function", "missing_statement": st,
+                                 "invariant": REVIEWED.get(key)}))
     stale = [k for k in REVIEWED if k not in seen]
     return {"name": "scan", "problems": problems, "evaluations": len(sites), "nontrivial_keys": [],
             "stats": {"sites": len(sites), "reviewed": len(REVIEWED), "stale_review_entries": len(stale),
-                      "by_class": _by_class(sites)},
+                      "by_class": _by_class(sites),
+                      "order_sensitive_unless_invariant": [{"site": list(k), "invariant": REVIEWED[k], "guards": GUARDS.get(k, [])}
+                                                           for k in REVIEWED if REVIEWED[k].startswith("invariant")]},
             "samples": []}
 
 
